@@ -56,7 +56,8 @@ def label_to_op(name, args):
 
 
 def rand_exec(rng, nops, ne, nl):
-    ops = []
+    # the signals / slots of one execution all take the same number of arguments: each arity 0..8 is its own emit() overload
+    ops = ["arity %d" % rng.randint(0, 8)]
     for _ in range(nops):
         r = rng.random()
         e, g, l, k = rng.randint(1, ne), rng.randint(1, 2), rng.randint(1, nl), rng.randint(1, 2)
@@ -108,15 +109,18 @@ def run(ctx):
             os.remove(dot)
             execs = [[x for x in (label_to_op(*st) for st in w) if x] for w in walks]
             ctx.notes["graph_edges_replayed:" + cfg] = nedges
+            # the model's behaviours do not depend on the number of signal arguments: the walks are spread over all nine
+            # emit() overloads (arity 0..8)
+            execs = [["arity %d" % (n % 9)] + e for n, e in enumerate(execs)]
             check_executions(ctx, binary, execs, "graph_" + cfg.replace(".cfg", ""))
-    check_executions(ctx, binary, UNIT_TEST_SCENARIOS, "unittest")
+    check_executions(ctx, binary, [["arity %d" % n] + sc for sc in UNIT_TEST_SCENARIOS for n in range(9)], "unittest")
     # direction B: random nested programs over 3 emitters x 2 signals, 4 listeners x 2 slots
     nexec, nops = (600, 40) if ctx.quick else (20000, 60)
     execs = [rand_exec(ctx.rng, nops, ctx.rng.choice([1, 2, 3]), ctx.rng.choice([1, 2, 4])) for _ in range(nexec)]
     check_executions(ctx, binary, execs, "random")
     return vlib.finish(ctx, "model_checking",
                        "every edge of the CallbackImpl state graph replayed through the re-entrant interpreter on the real "
-                       "Callback classes + seeded random nested programs; every event (invocations, returns, both sides' "
+                       "Callback classes (spread over all nine emit() overloads, arity 0..8, argument values checked) + seeded random nested programs; every event (invocations, returns, both sides' "
                        "bookkeeping at quiescent points) validated by TLC against Connections; distinct = distinct op sequences")
 
 
